@@ -11,8 +11,7 @@ from . import e2_formula as F
 from . import c11_consume as C
 from . import c11_fmt as T
 from .c11_consume import Stuck
-from .core import AnchorError, Unsupported
-from .e1_srcmodel import dotted
+from .core import Unsupported
 from .e2_eval import is_unknown
 from .sem import place
 
@@ -355,17 +354,25 @@ def r2_declared_sizes(ctx):
                       None if ok else {"format": txt.replace(T.ENDIAN, ""), "bytes": repr(b)})
         sr, srf, bsr = T.strval(tb.get("self._str_sr"), tb), T.strval(tb.get("self._str_sr_fromfile"), tb), T.numval(tb.get("self._bytes_sr"), tb)
         si, dt = T.struct_items(sr), T.dtype_of(srf)
-        ok = si is not None and dt is not None and bsr is not None and bsr.is_const() and len(si[1]) == 1 \
-            and STRUCT_SIZE[si[1][0][1]] == dt[2] == bsr.const_value() and STRUCT_KIND[si[1][0][1]] == NP_KIND[dt[1]] == "float"
-        ctx.check(ok, f"op4 {label}: 'single-precision word' struct code, numpy dtype and byte count agree", fn4, {"struct": sr, "numpy": srf, "bytes": repr(bsr)})
+        if si is None or dt is None or bsr is None or not bsr.is_const():
+            ctx.error(f"op4 {label}: _str_sr / _str_sr_fromfile / _bytes_sr cannot be resolved", fn4, {"struct": sr, "numpy": srf, "bytes": repr(bsr)})
+        else:
+            ok = len(si[1]) == 1 and STRUCT_SIZE[si[1][0][1]] == dt[2] == bsr.const_value() and STRUCT_KIND[si[1][0][1]] == NP_KIND[dt[1]] == "float"
+            ctx.check(ok, f"op4 {label}: 'single-precision word' struct code, numpy dtype and byte count agree", fn4, {"struct": sr, "numpy": srf, "bytes": repr(bsr)})
         wpd = T.numval(tb.get("self._wordsperdouble"), tb)
-        ok = wpd is not None and bsr is not None and wpd.is_const() and bsr.is_const() and wpd.const_value() * bsr.const_value() == 8
-        ctx.check(ok, f"op4 {label}: words per double = 8 / word size", fn4, {"wordsperdouble": repr(wpd), "bytes_sr": repr(bsr)})
+        if wpd is None or bsr is None or not wpd.is_const() or not bsr.is_const():
+            ctx.error(f"op4 {label}: _wordsperdouble cannot be resolved", fn4, {"wordsperdouble": repr(wpd), "bytes_sr": repr(bsr)})
+        else:
+            ok = wpd.const_value() * bsr.const_value() == 8
+            ctx.check(ok, f"op4 {label}: words per double = 8 / word size", fn4, {"wordsperdouble": repr(wpd), "bytes_sr": repr(bsr)})
     tb = tbs["op4"][32]
     dr, drf = T.strval(tb.get("self._str_dr"), tb), T.strval(tb.get("self._str_dr_fromfile"), tb)
     si, dt = T.struct_items(dr), T.dtype_of(drf)
-    ok = si is not None and dt is not None and len(si[1]) == 1 and si[1][0] == ("%d", "d") and dt[1:] == ("f", 8)
-    ctx.check(ok, "op4: double struct code and numpy dtype agree (d / f8)", fn4, {"struct": dr, "numpy": drf})
+    if si is None or dt is None:
+        ctx.error("op4: _str_dr / _str_dr_fromfile cannot be resolved", fn4, {"struct": dr, "numpy": drf})
+    else:
+        ok = len(si[1]) == 1 and si[1][0] == ("%d", "d") and dt[1:] == ("f", 8)
+        ctx.check(ok, "op4: double struct code and numpy dtype agree (d / f8)", fn4, {"struct": dr, "numpy": drf})
     for nm in ("_str_sr", "_str_dr", "_str_sr_fromfile", "_str_dr_fromfile"):
         ok = all((T.strval(tbs["op4"][b].get("self." + nm), tbs["op4"][b]) or "").startswith(T.ENDIAN) for b in (32, 64))
         ctx.check(ok, f"op4: {nm} carries the detected byte order", fn4, nontrivial=False)
@@ -373,20 +380,28 @@ def r2_declared_sizes(ctx):
         tb = tbs["op2"][bits]
         ib = T.numval(tb.get("self._ibytes"), tb)
         di, si = T.dtype_of(T.strval(tb.get("self._intstr"), tb)), T.struct_items(T.strval(tb.get("self._intstru"), tb))
-        ok = di is not None and si is not None and ib is not None and ib.is_const() and len(si[1]) == 1 \
-            and di[2] == STRUCT_SIZE[si[1][0][1]] == ib.const_value() == isz and NP_KIND[di[1]] == STRUCT_KIND[si[1][0][1]] == "int" and di[0] == si[0] == T.ENDIAN
-        ctx.check(ok, f"op2 {label}: integer numpy dtype, struct code and _ibytes agree", fn2,
-                  {"intstr": T.strval(tb.get("self._intstr"), tb), "intstru": T.strval(tb.get("self._intstru"), tb), "ibytes": repr(ib)})
+        det = {"intstr": T.strval(tb.get("self._intstr"), tb), "intstru": T.strval(tb.get("self._intstru"), tb), "ibytes": repr(ib)}
+        if di is None or si is None or ib is None or not ib.is_const():
+            ctx.error(f"op2 {label}: _intstr / _intstru / _ibytes cannot be resolved", fn2, det)
+        else:
+            ok = len(si[1]) == 1 and di[2] == STRUCT_SIZE[si[1][0][1]] == ib.const_value() == isz and NP_KIND[di[1]] == STRUCT_KIND[si[1][0][1]] == "int" \
+                and di[0] == si[0] == T.ENDIAN
+            ctx.check(ok, f"op2 {label}: integer numpy dtype, struct code and _ibytes agree", fn2, det)
         fb = T.numval(tb.get("self._fbytes"), tb)
         dr_, sr_ = T.dtype_of(T.strval(tb.get("self._rfrm"), tb)), T.struct_items(T.strval(tb.get("self._rfrmu"), tb))
-        ok = dr_ is not None and sr_ is not None and fb is not None and fb.is_const() and len(sr_[1]) == 1 \
-            and dr_[2] == STRUCT_SIZE[sr_[1][0][1]] == fb.const_value() == isz and NP_KIND[dr_[1]] == STRUCT_KIND[sr_[1][0][1]] == "float" \
-            and dr_[0] == sr_[0] == T.ENDIAN
-        ctx.check(ok, f"op2 {label}: real numpy dtype, struct code and _fbytes agree", fn2,
-                  {"rfrm": T.strval(tb.get("self._rfrm"), tb), "rfrmu": T.strval(tb.get("self._rfrmu"), tb), "fbytes": repr(fb)})
+        det = {"rfrm": T.strval(tb.get("self._rfrm"), tb), "rfrmu": T.strval(tb.get("self._rfrmu"), tb), "fbytes": repr(fb)}
+        if dr_ is None or sr_ is None or fb is None or not fb.is_const():
+            ctx.error(f"op2 {label}: _rfrm / _rfrmu / _fbytes cannot be resolved", fn2, det)
+        else:
+            ok = len(sr_[1]) == 1 and dr_[2] == STRUCT_SIZE[sr_[1][0][1]] == fb.const_value() == isz \
+                and NP_KIND[dr_[1]] == STRUCT_KIND[sr_[1][0][1]] == "float" and dr_[0] == sr_[0] == T.ENDIAN
+            ctx.check(ok, f"op2 {label}: real numpy dtype, struct code and _fbytes agree", fn2, det)
         sk = T.struct_items(T.strval(tb.get("self._Str"), tb))
-        ok = sk is not None and len(sk[1]) == 1 and sk[1][0][0] == 1 and STRUCT_SIZE[sk[1][0][1]] == isz and STRUCT_KIND[sk[1][0][1]] == "int"
-        ctx.check(ok, f"op2 {label}: key struct is {isz} bytes", fn2, T.strval(tb.get("self._Str"), tb))
+        if sk is None:
+            ctx.error(f"op2 {label}: key struct cannot be resolved", fn2, repr(tb.get("self._Str")))
+        else:
+            ok = len(sk[1]) == 1 and sk[1][0][0] == 1 and STRUCT_SIZE[sk[1][0][1]] == isz and STRUCT_KIND[sk[1][0][1]] == "int"
+            ctx.check(ok, f"op2 {label}: key struct is {isz} bytes", fn2, T.strval(tb.get("self._Str"), tb))
 
 
 # ------------------------------------------------------------------------------------------------------------------ R3
@@ -642,7 +657,6 @@ def r4_read_equals_skip(ctx):
         if ok:
             sk_loop, tail = al[0]
             word = F.fn("idx", F.fn("dec", F.fn("rd", sk_loop.frame, F.const(0), F.const(4))), F.const(0))
-            pre = C.total(_until_exit([it for it in sr.top.items if it[0] != "loop"][:1]), "B")
             ok = C.total(sk_loop.items, "B") is not None and C.same(C.total(sk_loop.items, "B"), 4 + word + 4 + KEY, whole_values=False) \
                 and C.total(_until_exit(tail), "B") is not None and C.same(C.total(_until_exit(tail), "B"), 2 * KEY)
         ctx.check(ok, "skipop2record: per record 4 + (reclen + 4) bytes, then the two trailing keys", sr.fn, None if ok else C.show(sr.top.items)[:400])
@@ -690,7 +704,6 @@ def r4_read_equals_skip(ctx):
     # ---- op4 binary: record = [4][3 words][payload][4]
     tbs = T.tables(ctx)["op4"]
     sb = _w4(ctx, "_skipop4_binary")
-    sk_test = None
     if sb is not None:
         lps = C.loops_in(sb.top.items)
         ok = len(lps) == 1 and C.total(lps[0].items, "B") is not None
@@ -710,7 +723,6 @@ def r4_read_equals_skip(ctx):
             if ok:
                 r = C.fn_parts(hf[2])
                 ok = r is not None and C.same(r[1][1], F.const(4))
-                sk_test = True
         ctx.check(ok, "_skipop4_binary: per column record 4 + reclen + 4 bytes; the column number is the first header word; stops after the sentinel "
                       "column cols + 1", sb.fn, None if ok else C.show(sb.top.items)[:300])
     for reader in ("_rd_dense_binary", "_rd_bigmat_binary", "_rd_nonbigmat_binary"):
@@ -782,7 +794,6 @@ def r4_read_equals_skip(ctx):
     sk = _w4(ctx, "_skipop4_ascii")
     if sk is not None:
         skf = sk.fn
-        sparams = [a.arg for a in skf.args.args][1:]
         sk_items = C.tidy(_strip_exit(sk.top.items))
         sk_loops = [lp for lp in C.loops_in(sk.top.items) if not any(lp is x for o in C.loops_in(sk.top.items) for x in C.loops_in(o.items))]
         first_line = F.fn("ln", sk.top.id, F.const(0))
@@ -842,6 +853,7 @@ def _guard_equiv(guard, want):
 
 
 def r5_listing_equals_read(ctx):
+    normalisers = {}
     for loader, reader, skipper in (("_loadop4_ascii", "_rd_dense_ascii", "self._skipop4_ascii"), ("_loadop4_binary", "_rd_dense_binary", "self._skipop4_binary")):
         rf = ctx.src.func(OP4, "OP4." + reader)
         kindr = "ascii" if "ascii" in reader else "binary"
@@ -889,8 +901,10 @@ def r5_listing_equals_read(ctx):
         ctx.check(ok, f"{loader}: a matrix is skipped exactly when listing or when its name is not in the requested list", fn,
                   None if ok else {"skip calls": len(skips)})
         np_ = C.fn_parts(name) if _rat(name) else None
-        ok = np_ is not None and np_[0] == "call:self._check_name"
-        ctx.check(ok, f"{loader}: names are normalised with _check_name before filtering (same names in listings, filters and reads)", fn)
+        normalisers[loader] = np_[0] if np_ is not None and np_[0].startswith("call:self.") else None
+    ok = len(normalisers) == 2 and len(set(normalisers.values())) == 1 and None not in normalisers.values()
+    ctx.check(ok, "both loaders normalise the matrix name with the same method before filtering (same names in listings, filters and reads of "
+                  "ASCII and binary files)", ctx.src.func(OP4, "OP4._loadop4_ascii"), None if ok else normalisers)
     for q in ("dctload", "listload", "dir"):
         w = _w4(ctx, q, follow=False)
         if w is None:
@@ -1005,7 +1019,6 @@ def r6_cursor(ctx):
     for lp in C.loops_in(w.top.items):
         stores = [(nm, ix, val, st) for nm, ix, val, st in w.all_cells if _rat(ix) and _lv_in(ix, lp.frame)]
         sites = [c for c in w.cutovers if c["frame"].equals(lp.frame)]
-        seen = set()
         for nm, ix, val, st in stores:
             p = C.fn_parts(ix) if _rat(ix) else None
             if p is None or p[0] != "slice" or not _rat(p[1][0]) or not _rat(p[1][1]):
@@ -1015,7 +1028,6 @@ def r6_cursor(ctx):
             if len(ps) != 1 or not lo.equals(ps[0]):
                 continue
             ext = up - lo
-            k = (nm, repr(lo))
             upd = [v for q, v in lp.carry if q.equals(ps[0])]
             n += 1
             ok = len(upd) == 1 and _rat(upd[0]) and C.same(upd[0] - ps[0], ext, whole_values=False)
